@@ -171,6 +171,11 @@ def run(F, rep, tier):
         if o["rule"] == "ATOMIC" and o["key"] == "output-truncated":
             rep.obs.append(o)
             rep.sites += 1
+    # "independent of environment": which directory the compiler was started in, and how the path of the main file was spelled
+    # (`main.sy`, `./main.sy`, `/abs/main.sy`), do not decide which files are one module - the source root is the main file's parent
+    # as the path gives it, never a directory looked up from the process (the C12 instance)
+    import c12
+    core.borrow(rep, c12.path_forms, lambda o: o["rule"] == "PATH-FORMS" and o["key"].startswith("root|"), F)
 
 
 def _short(t):
